@@ -2,6 +2,8 @@ package main
 
 import (
 	"fmt"
+	"os"
+	"path/filepath"
 	"strings"
 	"testing/fstest"
 
@@ -556,6 +558,36 @@ func runC06(c *Ctx) {
 		want := []string{`"sub/a"`, `"sub/b"`, `"sub/c"`, `"sub/deeper/d"`, `"sub/deeper/e"`, `"main"`}
 		c.Pred("include", "include-tree-relative-paths", main, res == "ok" && strings.Join(got, " ") == strings.Join(want, " "),
 			res+" "+strings.Join(got, " "), strings.Join(want, " "), true)
+	}
+	// an $INCLUDE line that a $GENERATE expands to names its file in the configured file system like any other: the same
+	// path exists on disk with other content, which must not be what is read
+	{
+		dir, derr := os.MkdirTemp("", "verif-c06-")
+		if derr == nil {
+			disk := filepath.Join(dir, "inc.db")
+			_ = os.WriteFile(disk, []byte("where TXT \"disk\"\n"), 0o644)
+			fsys := fstest.MapFS{strings.TrimPrefix(disk, "/"): {Data: []byte("where TXT \"fs\"\n")}}
+			for _, tc := range []struct {
+				line string
+				n    int
+			}{{"$INCLUDE " + disk, 1}, {"$GENERATE 1-1 \\$INCLUDE " + disk, 1}, {"$GENERATE 3-4 \\$INCLUDE " + disk, 2}, {"$GENERATE 1-1 \\$INCLUDE " + disk + " other.org.", 1}} {
+				main := "$ORIGIN example.org.\n$TTL 60\n" + tc.line + "\nz TXT \"main\"\n"
+				recs, res := parseZone(main, "", -1, fsys)
+				var got []string
+				for _, s := range recs {
+					f := strings.Split(s, "\t")
+					got = append(got, f[len(f)-1])
+				}
+				var want []string
+				for k := 0; k < tc.n; k++ {
+					want = append(want, `"fs"`)
+				}
+				want = append(want, `"main"`)
+				c.Pred("include", "include-from-generate-uses-the-include-fs", tc.line, res == "ok" && strings.Join(got, " ") == strings.Join(want, " "),
+					res+" "+strings.Join(got, " "), strings.Join(want, " "), true)
+			}
+			os.RemoveAll(dir)
+		}
 	}
 	// the lexer model against zlexer.Next, token by token
 	lexStream(c, c.Scale(3000, 60000))
